@@ -174,7 +174,7 @@ def scenarios(ctx, thorough):
     points = hook_points()
     ps = pairs(points, thorough)
     scns = []
-    states = ["idle", "eof", "err", "data-arriving", "err-arriving", "eof-arriving", "inflight", "after-error-op"]
+    states = ["idle", "eof", "err", "data-arriving", "err-arriving", "eof-arriving", "inflight", "after-error-op", "after-timeout-op"]
     k = 0
     for drv in ("generic", "network", "netconf"):
         for st in states:
